@@ -69,10 +69,16 @@ def run_single(bindir, r, P, jobs, log, shuffle=False, dup_spelling=False, keep_
         pp.close()
 
 
-def run_multi(bindir, r, P, n_inv, jobs_list, targets_list, log=False, tag="m"):
-    """Several top-level invocations started at (almost) the same time on one project."""
+def run_multi(bindir, r, P, n_inv, jobs_list, targets_list, log=False, tag="m", prepare=None):
+    """Several top-level invocations started at (almost) the same time on one project.
+    prepare(pp): optional first phase (e.g. a complete build followed by a source edit)."""
     pp = par.ParProject(bindir, P, tag)
     try:
+        if prepare:
+            prepare(pp)
+            for f_ in (pp.worklog, pp.toktrace):
+                if os.path.exists(f_):
+                    os.unlink(f_)
         env = dict(pp.pr.env)
         env["VERIF_WORKLOG"] = pp.worklog
         env["REDO_VERIF_TRACE"] = pp.toktrace
@@ -103,7 +109,10 @@ def run_multi(bindir, r, P, n_inv, jobs_list, targets_list, log=False, tag="m"):
                 pass
             results.append({"rc": 124 if hung else p.returncode, "err": err.decode(errors="replace"), "out": out.decode(errors="replace"), "hung": hung})
         ws = pp.work_sections()
-        return {"results": results, "ws": ws, "files": snapshot_files(pp.root), "locks": validate_locks(pp.toktrace),
+        forced = 0
+        if os.path.exists(pp.toktrace):
+            forced = sum(1 for l_ in open(pp.toktrace) if l_.startswith("lck ") and " forced " in l_)
+        return {"results": results, "ws": ws, "files": snapshot_files(pp.root), "forced": forced, "locks": validate_locks(pp.toktrace),
                 "overlap": par.overlapping_same_target(ws), "counts": par.exec_counts(ws)}
     finally:
         pp.close()
@@ -134,3 +143,29 @@ def run_cycle(bindir, r, P, entries, jobs, tag="cyc"):
         return res
     finally:
         pp.close()
+
+
+# ---------------------------------------------------------------- rebuilds through the out-of-band path
+def oob_project(r):
+    """src -> base (checksummed, slow) -> m0..mk -> top: after an edit of src every m_i and top is
+    'maybe dirty' and goes through redo-unlocked (lock held by the parent, job run by the child)."""
+    P = {"base": (["src"], r.randint(80, 250), False, False, True)}
+    k = r.randint(2, 4)
+    for i in range(k):
+        P["m%d" % i] = (["base"], r.randint(30, 120), False, False, False)
+    P["top"] = (["m%d" % i for i in range(k)], 10, False, False, False)
+    P["all"] = (["top"], 5, False, False, False)
+    return P, k
+
+
+def oob_prepare(r):
+    def prep(pp):
+        with open(os.path.join(pp.root, "src"), "w") as f:
+            f.write("v1\n")
+        res = pp.run(["redo", "all"], jobs=4, log=False)
+        if res["rc"] != 0:
+            raise common.Broken("oob scenario: the first build failed", res["err"][-800:])
+        time.sleep(0.02)
+        with open(os.path.join(pp.root, "src"), "w") as f:
+            f.write("v2-%d\n" % r.randint(0, 10**6))
+    return prep
